@@ -306,6 +306,11 @@ impl VirtualSign<'_> {
 
     /// Handles `DataChunksSent` messages.
     fn data_chunks_sent<'a>(&mut self, chunks: ChunkCount) -> Option<Message<'a>> {
+        // Only a sign that is currently receiving data is affected by the (unaddressed) chunk count.
+        if self.state != State::ConfigInProgress && self.state != State::PixelsInProgress {
+            return None;
+        }
+
         if ChunkCount(self.data_chunks) == chunks {
             match self.state {
                 State::ConfigInProgress => self.state = State::ConfigReceived,
